@@ -61,6 +61,7 @@ type Contract struct {
 	Modifies []string
 	Loops    map[int]*LoopSpec
 	Trusted  bool
+	Enumerate []string
 	Inline   bool
 	NoSafety bool
 	Used     bool
@@ -120,7 +121,11 @@ func parseContractFile(P *Program, pkg *packages.Package, f *ast.File, name stri
 				}
 				cur.Key = pkg.Types.Name() + "." + head
 				if cur.IsIface {
-					cur.Key = "iface:" + cur.Key
+					if strings.Count(head, ".") >= 2 {
+						cur.Key = "iface:" + head
+					} else {
+						cur.Key = "iface:" + cur.Key
+					}
 				}
 				if _, dup := P.Contracts[cur.Key]; dup {
 					return fail(fmt.Errorf("duplicate contract %s", cur.Key))
@@ -142,6 +147,8 @@ func parseContractFile(P *Program, pkg *packages.Package, f *ast.File, name stri
 				case "decreases":
 					cur.Decr = &cl
 				}
+			case "enumerate":
+				cur.Enumerate = append(cur.Enumerate, rest)
 			case "pure":
 				cur.Pure = true
 			case "trusted":
